@@ -235,9 +235,9 @@ def run_case(acc, idx, c):
         # a bare operand is taken in the Array's unit (or refused); a unit-carrying one has its own
         P2 = np.asarray(v2, dtype=np.float64) * (s2 if carries else s1)
         dd2 = d2 if carries else d1
-        if not carries and name in ("add", "subtract") and tuple(d1) == tuple(M2.dims_of()):
+        if not carries and (name in ("add", "subtract") or name in NARY_PRED) and tuple(d1) == tuple(M2.dims_of()):
             # x + k is defined by the operators (C02): a bare number added to a pure-number Array is a pure number, whatever
-            # the scale of the Array's unit (1 % + 3 = 3.01); numpy's add/subtract are those operators
+            # the scale of the Array's unit (1 % + 3 = 3.01); numpy's add/subtract and comparison functions are those operators (C07)
             P2 = np.asarray(v2, dtype=np.float64)
         X, Y = (P1, P2) if first_is_array else (P2, P1)
         compatible = tuple(d1) == tuple(dd2)
@@ -293,7 +293,9 @@ def run_case(acc, idx, c):
             with np.errstate(all="ignore"):
                 if np.any(np.isclose(X, Y, rtol=1e-6)) and c["u1"] != c["u2"]:
                     want = None
-            out = finish(acc, idx, c, lambda: fn(np, x, y), want, M2.dims_of(), 0.0, carries and not compatible, may_raise or (carries and c["u1"] != c["u2"]),
+            # (a number without a unit next to a dimensional Array is refused, as by the comparison operators)
+            refuse = (carries and not compatible) or (not carries and tuple(d1) != tuple(M2.dims_of()))
+            out = finish(acc, idx, c, lambda: fn(np, x, y), want, M2.dims_of(), 0.0, refuse, may_raise or (carries and c["u1"] != c["u2"]),
                          (dt,), f"pred:{name}:{label_kind}")
         else:
             fn, sgn = NARY_MUL[name]
